@@ -64,7 +64,7 @@ def build(rnd):
         "fault": {"kind": rnd.pick(FAULTS), "at": rnd.int(0, len(merged) + 2)} if rnd.int(0, 3) else None,
         "connect_fail": rnd.int(0, 9) == 0,
         "cut": rnd.pick([0, 0, 1, 7, 100]),
-        "opts": rnd.pick([{}, {}, {}, {"body_size_limit": "10"}, {"stream_large_bodies": "5"},
+        "opts": rnd.pick([{}, {}, {}, {"body_size_limit": "10"}, {"stream_large_bodies": "5"}, {"validate_inbound_headers": False},
                           {"body_size_limit": "4k", "stream_large_bodies": "3"}, {"store_streamed_bodies": True, "stream_large_bodies": "1"}]),
     }
 
